@@ -209,12 +209,15 @@ CHECKS = {
              "in the serialized order), C03_threads_adjacent / C03_threads_all_serialized / C03_main_thread_first (the threads of a process form one block that starts with a main thread when there is one), "
              "C03_first_thread_index (a counter's mainThreadIndex is the first thread of the process the caller named), C03_marker_fields (for ANY interleaving of schema registrations and add_marker calls, "
              "with any mix of unique-string / plain-string / number fields, serializing the marker data column never panics and gives every marker exactly the field values it was added with), "
+             "C03_category_handles / C03_category_handles_in_range (for ANY sequence of handle_for_category / handle_for_subcategory calls and Category / Subcategory values passed where a frame is made, "
+             "no call fails and every handle ever returned still denotes, in the final category table, the category name, colour and subcategory name its call supplied - so its indices are in range - "
+             "and the table holds each (name, colour) once), C03_frame_subcategories (the frame table's category / subcategory columns only hold handles a call was given), "
              "C03_sort_permutes, C03_checker_decides (the table checker decides exactly 'all columns have the declared length, every index in range, prefix earlier'). Tied to "
              "fxprof-processed-profile by random API call sequences -> serde_json -> every table of every thread through the verified checker, walked stacks against supplied frames, thread references, "
              "id strings, thread order, counter thread indices, every marker's name and field values (static and runtime schemas), and the exact contents of the string / frame / func / resource / native-symbol tables "
-             "and the used-library order against the model.",
+             "(with the frames' category / subcategory columns), meta.categories and the used-library order against the model; a walked frame only equals a supplied one when its category, colour and subcategory names do.",
         note="Trusted: Coq kernel; harness h_fxprof; vlib/c03.py (catalogue of which JSON column indexes which table; frame content ids; expected address resolution). NOT yet modelled / proved: "
-             "JS frames / frame flags / subcategories, kernel library mappings, allocation samples, counter sample columns (their ordering is C04), "
+             "JS frames / frame flags, the category of markers (only its range is checked), kernel library mappings, allocation samples, counter sample columns (their ordering is C04), "
              "marker graphs and the schema JSON. For those parts the claim rests on the verified checker applied to sampled outputs, which is testing.",
         technique="Coq proof (interning and stack-table invariants, unique-suffix scheme, sort/translation contract, verified table checker) + correspondence run evaluated by vm_compute",
         category="proof",
